@@ -3,6 +3,7 @@ abortable_parser), and the Program object of the MIR interpreter. Derived artefa
 working tree under /verif/.cache/<sha>/ (see DESIGN.md 3.2); the cargo target directory holding the third-party
 dependencies is shared (/verif/.cache/target-nightly), the ucg crate itself is always rebuilt from the scratch copy."""
 import fcntl
+import re
 import glob
 import hashlib
 import os
@@ -134,4 +135,76 @@ def load_program(d):
     bi_serde.install(prog)
     prog.tree = os.path.join(d, 'tree')
     prog.mir_sha = {f: hashlib.sha256(open(os.path.join(d, f), 'rb').read()).hexdigest()[:16] for f in ('ucg.mir', 'bin.mir', 'ap.mir')}
+    return prog
+
+
+def lsp_root():
+    c = glob.glob(os.path.expanduser('~/.cargo/registry/src/*/lsp-types-0.95.1'))
+    if not c:
+        raise RuntimeError('lsp-types sources not found in the cargo registry')
+    return c[0]
+
+
+_SERDE = re.compile(r'_::|serde::|Serialize|Deserialize|__Field|__Visitor|visit_|fmt_pascal_case|PascalCaseBuf')
+
+
+def lsp_mir(d, log=None):
+    """MIR of the (fixed, third-party) lsp-types crate without its serde derive code; dumped once per cache"""
+    out = os.path.join(CACHE, 'lsp-types-0.95.1.mir')
+    if os.path.exists(out) and os.path.getsize(out) > 100000:
+        return out
+    lock = open(os.path.join(CACHE, '.lock'), 'w')
+    fcntl.flock(lock, fcntl.LOCK_EX)
+    try:
+        if os.path.exists(out) and os.path.getsize(out) > 100000:
+            return out
+        scratch = '/var/tmp/ucg-verif-build'
+        shutil.rmtree(scratch, ignore_errors=True)
+        shutil.copytree(os.path.join(d, 'tree'), scratch)
+        env = dict(ENV, CARGO_TARGET_DIR=os.path.join(CACHE, 'target-nightly'))
+        raw = out + '.raw'
+        try:
+            subprocess.run(['touch', os.path.join(lsp_root(), 'src', 'lib.rs')], check=False)
+            _run(['cargo', '+nightly', 'rustc', '--offline', '-p', 'lsp-types', '--', '-Zunpretty=mir', '-C', 'debug-assertions=off', '-C', 'overflow-checks=on'], scratch, raw, env)
+        finally:
+            shutil.rmtree(scratch, ignore_errors=True)
+        keep = []
+        skip = False
+        for line in open(raw):
+            if line.startswith(('fn ', 'const ', 'static ')):
+                skip = bool(_SERDE.search(line.split('{')[0] if '<impl at' not in line else line))
+            if not skip:
+                keep.append(line)
+        with open(out + '.tmp', 'w') as fh:
+            fh.writelines(keep)
+        os.remove(raw)
+        os.rename(out + '.tmp', out)
+        if log:
+            log('lsp-types MIR dumped (%d KiB after dropping serde code)' % (os.path.getsize(out) // 1024))
+        return out
+    finally:
+        fcntl.flock(lock, fcntl.LOCK_UN)
+        lock.close()
+
+
+def load_lsp(prog, d, log=None):
+    """add the lsp-types crate (structs, Default impls, enum-like consts) to a loaded program"""
+    path = lsp_mir(d, log)
+    prog.sources.add_crate('lsp_types', lsp_root(), local=False)
+    before = set(prog.consts)
+    prog.load(path, 'lsp_types')
+    # the lsp_enum! macro puts every `pub const NAME: Type` into an impl located at the macro definition, so the impl
+    # position does not identify the type; the const's own type annotation does
+    for name in list(prog.consts):
+        if name in before:
+            continue
+        c = prog.consts[name]
+        m = re.match(r'const .*>::(\w+): ([\w:]+) = ', c.header)
+        if m:
+            prog.consts.setdefault('lsp_types::%s::%s' % (m.group(2).split('::')[-1], m.group(1)), c)
+    prog.impl_index.clear()
+    prog.by_last.clear()
+    prog.closure_index.clear()
+    prog.resolve_cache.clear()
+    prog.index()
     return prog
